@@ -1,5 +1,6 @@
 import MdVerif.Model.Neighbors
 import MdVerif.Properties.C05
+import MdVerif.Proofs.VoxLemmas
 /-!
 # C10 — neighbour searches return exactly the atoms within the cutoff
 
@@ -154,3 +155,175 @@ theorem roundHA_odd (x : Rat) : roundHA (-x) = -roundHA x := by
     simp [h, this]
 
 end MdVerif.Nb
+
+/-! ## the voxel search of compute_neighborlist (Model/Voxels.lean) -/
+namespace MdVerif.Vox
+open MdVerif.Mic
+
+/-- **`findLowerBound`**: within `[lower, upper)` of a sorted bin, everything before the result is `< x`, everything from it on is `≥ x` -/
+theorem c10_lowerBound_spec (xs : List Rat) (x : Rat) (lower upper : Nat) (hs : Sorted xs) (hlu : lower ≤ upper) (hul : upper ≤ xs.length) :
+    lower ≤ lowerBound xs x lower upper ∧ lowerBound xs x lower upper ≤ upper ∧
+    (∀ i, lower ≤ i → i < lowerBound xs x lower upper → xs.getD i 0 < x) ∧
+    (∀ i, lowerBound xs x lower upper ≤ i → i < upper → x ≤ xs.getD i 0) :=
+  lowerBoundAux_spec xs x hs _ lower upper hlu hul (by omega)
+
+/-- **`findUpperBound`**: everything before the result is `≤ x`, everything from it on is `> x` -/
+theorem c10_upperBound_spec (xs : List Rat) (x : Rat) (lower upper : Nat) (hs : Sorted xs) (hlu : lower ≤ upper) (hul : upper ≤ xs.length) :
+    lower ≤ upperBound xs x lower upper ∧ upperBound xs x lower upper ≤ upper ∧
+    (∀ i, lower ≤ i → i < upperBound xs x lower upper → xs.getD i 0 ≤ x) ∧
+    (∀ i, upperBound xs x lower upper ≤ i → i < upper → x < xs.getD i 0) :=
+  upperBoundAux_spec xs x hs _ lower upper hlu hul (by omega)
+
+
+/-- **the first range is exactly the atoms of the bin whose x lies in `[minx, maxx]`** -/
+theorem c10_xrange_exact (xs : List Rat) (minx maxx L : Rat) (np : Bool) (hs : Sorted xs) (i : Nat) (hi : i < xs.length) :
+    ((xRanges xs minx maxx L np).s0 ≤ i ∧ i < (xRanges xs minx maxx L np).e0) ↔ (minx ≤ xs.getD i 0 ∧ xs.getD i 0 ≤ maxx) := by
+  rw [xRanges_s0, xRanges_e0]
+  obtain ⟨a1, a2, a3, a4⟩ := c10_lowerBound_spec xs minx 0 xs.length hs (Nat.zero_le _) (le_refl _)
+  obtain ⟨b1, b2, b3, b4⟩ := c10_upperBound_spec xs maxx (lowerBound xs minx 0 xs.length) xs.length hs a2 (le_refl _)
+  constructor
+  · rintro ⟨h1, h2⟩
+    exact ⟨a4 i h1 hi, b3 i h1 h2⟩
+  · rintro ⟨h1, h2⟩
+    have hs0 : lowerBound xs minx 0 xs.length ≤ i := by
+      by_contra hc
+      exact absurd (a3 i (Nat.zero_le _) (by omega)) (not_lt.mpr h1)
+    refine ⟨hs0, ?_⟩
+    by_contra hc
+    exact absurd (b4 i (by omega) hi) (not_lt.mpr h2)
+
+/-- **the two ranges never overlap**: the periodic image range lies wholly before or wholly after the direct range, inside the bin -/
+theorem c10_ranges_disjoint (xs : List Rat) (minx maxx L : Rat) (np : Bool) (hs : Sorted xs) (a b : Nat)
+    (h : (xRanges xs minx maxx L np).second = some (a, b)) :
+    (b ≤ (xRanges xs minx maxx L np).s0 ∨ (xRanges xs minx maxx L np).e0 ≤ a) ∧ b ≤ xs.length := by
+  obtain ⟨a1, a2, a3, a4⟩ := c10_lowerBound_spec xs minx 0 xs.length hs (Nat.zero_le _) (le_refl _)
+  obtain ⟨b1, b2, b3, b4⟩ := c10_upperBound_spec xs maxx (lowerBound xs minx 0 xs.length) xs.length hs a2 (le_refl _)
+  rw [xRanges_s0, xRanges_e0]
+  unfold xRanges at h
+  simp only [] at h
+  split at h
+  · split at h
+    · simp at h
+    · split at h
+      · simp only [Option.some.injEq, Prod.mk.injEq] at h
+        obtain ⟨rfl, rfl⟩ := h
+        exact ⟨Or.inl (Nat.min_le_right _ _), le_trans (Nat.min_le_right _ _) a2⟩
+      · simp only [Option.some.injEq, Prod.mk.injEq] at h
+        obtain ⟨rfl, rfl⟩ := h
+        exact ⟨Or.inr (Nat.le_max_right _ _), le_refl _⟩
+  · simp at h
+
+/-- **no bin position is scanned twice** (so `getNeighbors` cannot push a neighbour twice) -/
+theorem c10_visited_nodup (xs : List Rat) (minx maxx L : Rat) (np : Bool) (hs : Sorted xs) :
+    (xRanges xs minx maxx L np).visited.Nodup := by
+  unfold Ranges.visited
+  cases hsec : (xRanges xs minx maxx L np).second with
+  | none => simp [List.nodup_range']
+  | some ab =>
+    obtain ⟨a, b⟩ := ab
+    have hd := (c10_ranges_disjoint xs minx maxx L np hs a b hsec).1
+    simp only []
+    rw [List.nodup_append]
+    refine ⟨List.nodup_range' , List.nodup_range', ?_⟩
+    intro x hx y hy
+    simp only [List.mem_range'_1] at hx hy
+    rcases hd with hd | hd <;> omega
+
+/-- **the image range is exact on the part of the bin it may touch**: below the direct range it holds the atoms with `x + L ≤ maxx`
+(their image shifted by `+L` falls into the interval), above it those with `x − L ≥ minx` -/
+theorem c10_image_range_exact (xs : List Rat) (minx maxx L : Rat) (hs : Sorted xs) (a b : Nat)
+    (h : (xRanges xs minx maxx L true).second = some (a, b)) (i : Nat) (hi : i < xs.length) :
+    (0 < (xRanges xs minx maxx L true).s0 → a = 0 ∧ (i < (xRanges xs minx maxx L true).s0 → (i < b ↔ xs.getD i 0 ≤ maxx - L))) ∧
+    ((xRanges xs minx maxx L true).s0 = 0 → b = xs.length ∧ ((xRanges xs minx maxx L true).e0 ≤ i → (a ≤ i ↔ minx + L ≤ xs.getD i 0))) := by
+  obtain ⟨a1, a2, a3, a4⟩ := c10_lowerBound_spec xs minx 0 xs.length hs (Nat.zero_le _) (le_refl _)
+  obtain ⟨b1, b2, b3, b4⟩ := c10_upperBound_spec xs maxx (lowerBound xs minx 0 xs.length) xs.length hs a2 (le_refl _)
+  rw [xRanges_s0, xRanges_e0]
+  unfold xRanges at h
+  simp only [if_true] at h
+  split at h
+  · simp at h
+  · split at h
+    · rename_i hs0
+      simp only [Option.some.injEq, Prod.mk.injEq] at h
+      obtain ⟨rfl, rfl⟩ := h
+      obtain ⟨c1, c2, c3, c4⟩ := c10_upperBound_spec xs (maxx - L) 0 (lowerBound xs minx 0 xs.length) hs (Nat.zero_le _) a2
+      refine ⟨fun _ => ⟨rfl, fun hlt => ?_⟩, fun h0 => by omega⟩
+      rw [Nat.min_eq_left c2]
+      constructor
+      · intro hb; exact c3 i (Nat.zero_le _) hb
+      · intro hx
+        by_contra hc
+        exact absurd (c4 i (by omega) hlt) (not_lt.mpr hx)
+    · rename_i hs0
+      simp only [Option.some.injEq, Prod.mk.injEq] at h
+      obtain ⟨rfl, rfl⟩ := h
+      obtain ⟨c1, c2, c3, c4⟩ := c10_lowerBound_spec xs (minx + L) (upperBound xs maxx (lowerBound xs minx 0 xs.length) xs.length) xs.length hs b2 (le_refl _)
+      refine ⟨fun hp => by omega, fun _ => ⟨rfl, fun hge => ?_⟩⟩
+      rw [Nat.max_eq_left c1]
+      constructor
+      · intro ha; exact c4 i ha hi
+      · intro hx
+        by_contra hc
+        exact absurd (c3 i hge (by omega)) (not_lt.mpr hx)
+
+/-- why the image range must stay outside the direct one: scanning the whole bin for the image, as a "simplification" would, visits
+position 1 twice for this bin (x = 0.1, 0.5, 0.9; interval [0.4, 1.6], box length 1) -/
+theorem c10_whole_bin_image_range_witness :
+    let xs : List Rat := [1/10, 5/10, 9/10]
+    (xRanges xs (4/10) (16/10) 1 true).visited = [1, 2, 0] ∧
+    (List.range' 1 2 ++ List.range' 0 (upperBound xs (16/10 - 1) 0 3)) = [1, 2, 0, 1] := by
+  decide +kernel
+
+
+/-- **the wrapped copy is a lattice image**: `prewrap B p = p − (i·a + j·b + k·c)` with the integers of `prewrapShift` -/
+theorem c10_prewrap_lattice (B : Cell) (p : V3) :
+    prewrap B p = p.sub (B.latt (prewrapShift B p).1 (prewrapShift B p).2.1 (prewrapShift B p).2.2) := by
+  simp only [prewrap, prewrapShift, Cell.latt, V3.sub, V3.add, V3.smul]
+  congr 1 <;> ring
+
+/-- **and lies in the primary cell** of a reduced (lower-triangular) box: `0 ≤ z < c_z`, `0 ≤ y < b_y`, `0 ≤ x < a_x` -/
+theorem c10_prewrap_in_cell (B : Cell) (p : V3) (h : LowerTri B) :
+    0 ≤ (prewrap B p).z ∧ (prewrap B p).z < B.c.z ∧ 0 ≤ (prewrap B p).y ∧ (prewrap B p).y < B.b.y ∧
+    0 ≤ (prewrap B p).x ∧ (prewrap B p).x < B.a.x := by
+  obtain ⟨hay, haz, hbz, hax, hby, hcz⟩ := h
+  have hz := sub_floor_mul_bound p.z B.c.z hcz
+  simp only [prewrap, V3.sub, V3.smul, hay, haz, hbz, mul_zero, sub_zero]
+  set p1y := p.y - ((p.z / B.c.z).floor : Rat) * B.c.y with hp1y
+  have hy := sub_floor_mul_bound p1y B.b.y hby
+  set p2x := p.x - ((p.z / B.c.z).floor : Rat) * B.c.x - ((p1y / B.b.y).floor : Rat) * B.b.x with hp2x
+  have hx := sub_floor_mul_bound p2x B.a.x hax
+  refine ⟨hz.1, hz.2, hy.1, hy.2, hx.1, hx.2⟩
+
+theorem c10_voxel_index_lt (n : Nat) (size y : Rat) (hn : 0 < n) : voxelIndex n size y < n := by
+  unfold voxelIndex
+  simp only []
+  split
+  · exact hn
+  · split
+    · omega
+    · rename_i h1 h2
+      omega
+
+/-- **the voxel window is wide enough**: two points at most `d` apart along an axis fall into voxels whose indices differ by at most
+`⌊d/size⌋ + 1` — the `dIndex = int(maxDistance/voxelSize) + 1` of `getNeighbors` -/
+theorem c10_voxel_window (n : Nat) (size y1 y2 d : Rat) (hs : 0 < size) (hd : |y1 - y2| ≤ d) :
+    (voxelIndex n size y1 : Int) - (voxelIndex n size y2 : Int) ≤ (d / size).floor + 1 := by
+  have hfl : (y1 / size).floor - (y2 / size).floor ≤ (d / size).floor + 1 := by
+    simp only [floor_eq]
+    have h1 := Int.floor_le (y1 / size)
+    have h2 := Int.lt_floor_add_one (y2 / size)
+    have h3 := Int.lt_floor_add_one (d / size)
+    have hle : y1 / size - y2 / size ≤ d / size := by
+      rw [← sub_div]; exact div_le_div_of_nonneg_right (le_trans (le_abs_self _) hd) (le_of_lt hs)
+    have : ((⌊y1 / size⌋ - ⌊y2 / size⌋ : Int) : Rat) < ((⌊d / size⌋ + 1 + 1 : Int) : Rat) := by push_cast; linarith
+    have := Int.cast_lt.mp this
+    omega
+  have hdn : 0 ≤ (d / size).floor := by
+    simp only [floor_eq]
+    apply Int.floor_nonneg.mpr
+    exact div_nonneg (le_trans (abs_nonneg _) hd) (le_of_lt hs)
+  unfold voxelIndex
+  simp only []
+  split <;> split <;> (try split) <;> (try split) <;> omega
+
+end MdVerif.Vox
